@@ -137,6 +137,13 @@ func (m *htMod) initGenesis(e *lib.Env) lib.Outcome {
 	gs := htlctypes.GenesisState{Params: htGo(m.p), PreviousBlockTime: e.Time}
 	return e.Try(func(ctx sdk.Context) error { htlc.InitGenesis(ctx, *m.k[e], gs); return nil })
 }
+func (m *htMod) genesisStages(e *lib.Env) (int, int) {
+	gs := htlctypes.GenesisState{Params: htGo(m.p), PreviousBlockTime: e.Time}
+	vg, _ := errCode(func() error { return htlctypes.ValidateGenesis(gs) })
+	cctx, _ := e.Ctx.CacheContext()
+	sp, _ := errCode(func() error { return m.k[e].SetParams(cctx, gs.Params) })
+	return vg, sp
+}
 func (m *htMod) stored(e *lib.Env) string { return htTerm(m.k[e].GetParams(e.Ctx)) }
 
 func (m *htMod) supplyTerm(e *lib.Env, denom string) string {
